@@ -282,6 +282,51 @@ func (f *Frame) loopStoresTo(li *loopInfo, a *ssa.Alloc) bool {
 	return false
 }
 
+// backEdgesAllocInLoop: every value flowing into header phi p along a back edge is an
+// allocation made inside the loop (make, new, append, possibly through phis of the loop) or p itself.
+func (f *Frame) backEdgesAllocInLoop(p *ssa.Phi, li *loopInfo) bool {
+	var ok func(v ssa.Value, seen map[ssa.Value]bool) bool
+	ok = func(v ssa.Value, seen map[ssa.Value]bool) bool {
+		if v == ssa.Value(p) || seen[v] {
+			return true
+		}
+		seen[v] = true
+		in, isInstr := v.(ssa.Instruction)
+		if !isInstr || in.Block() == nil || !li.blocks[in.Block()] {
+			return false
+		}
+		switch x := v.(type) {
+		case *ssa.MakeSlice, *ssa.MakeMap:
+			return true
+		case *ssa.Alloc:
+			return x.Heap
+		case *ssa.Phi:
+			for _, e := range x.Edges {
+				if !ok(e, seen) {
+					return false
+				}
+			}
+			return true
+		case *ssa.Call:
+			if b, isB := x.Call.Value.(*ssa.Builtin); isB && b.Name() == "append" {
+				return true // modelled as a new backing array
+			}
+		}
+		return false
+	}
+	any := false
+	for i, pred := range p.Block().Preds {
+		if !li.blocks[pred] {
+			continue
+		}
+		any = true
+		if !ok(p.Edges[i], map[ssa.Value]bool{}) {
+			return false
+		}
+	}
+	return any
+}
+
 // definitelyFresh: syntactically, v is always the result of an allocation made by
 // this activation (make, new, composite literal, append to such a value), possibly through phis.
 func definitelyFresh(v ssa.Value, seen map[ssa.Value]bool) bool {
@@ -390,6 +435,27 @@ func (f *Frame) resolveName(name string, li *loopInfo) (ssa.Value, *ssa.Alloc, b
 	}
 	if len(cands) == 1 {
 		return cands[0], nil, true
+	}
+	if len(cands) > 1 {
+		// several definitions reach the loop (e.g. a nil initialisation and a later make): take the
+		// instruction whose block is dominated by the blocks of all the others (the latest definition)
+		var best ssa.Value
+		for _, c := range cands {
+			ci, ok := c.(ssa.Instruction)
+			if !ok || ci.Block() == nil {
+				continue
+			}
+			if best == nil {
+				best = c
+				continue
+			}
+			if best.(ssa.Instruction).Block().Dominates(ci.Block()) {
+				best = c
+			}
+		}
+		if best != nil {
+			return best, nil, true
+		}
 	}
 	// phi in any block dominating the header
 	for _, b := range f.fn.Blocks {
@@ -748,6 +814,19 @@ func (f *Frame) enterLoop(li *loopInfo, back map[[2]*ssa.BasicBlock]bool) {
 			case *types.Map, *types.Pointer:
 				ex.assume("(< " + v.T + " 0)")
 			}
+		}
+		if li.entryWM != "" && f.backEdgesAllocInLoop(p, li) {
+			// around the loop this variable only ever receives objects allocated inside the loop:
+			// it still has its entry value or points below the loop's entry watermark
+			ev := entryPhi[p].T
+			switch p.Type().Underlying().(type) {
+			case *types.Slice:
+				ex.assume("(or (= (Slice.ptr " + v.T + ") (Slice.ptr " + ev + ")) (< (Slice.ptr " + v.T + ") " + li.entryWM + "))")
+			case *types.Map, *types.Pointer:
+				ex.assume("(or (= " + v.T + " " + ev + ") (< " + v.T + " " + li.entryWM + "))")
+			}
+		}
+		if definitelyFresh(p, map[ssa.Value]bool{}) {
 		} else if definitelyFreshOrNil(p, map[ssa.Value]bool{}) {
 			switch p.Type().Underlying().(type) {
 			case *types.Slice:
